@@ -224,6 +224,9 @@ func runC04(w *W) {
 				if dj := sn.GetJulianDay() - s.GetJulianDay(); dj != float64(n) {
 					w.Viol(fmt.Sprintf("C04:JDdelta(%d):%s", n, ymd), fmt.Sprintf("Julian Day changed by %v stepping %d days", dj, n), ymd)
 				}
+				if g1, g2 := SolarUtil.GetDaysBetween(y, m, d, ty, tm, td), SolarUtil.GetDaysBetween(ty, tm, td, y, m, d); g1 != n || g2 != -n {
+					w.Viol(fmt.Sprintf("C04:GetDaysBetween:%s:%d", ymd, n), fmt.Sprintf("GetDaysBetween(%s -> %04d-%02d-%02d) = %d and reversed %d, day count says %d", ymd, ty, tm, td, g1, g2, n), ymd)
+				}
 				// Subtract / SubtractMinute / comparisons on (state, stepped state)
 				if got := sn.Subtract(s); got != n {
 					w.Viol(fmt.Sprintf("C04:Subtract:%s:%d", ymd, n), fmt.Sprintf("%s.Subtract(%s) = %d, reference %d", sn.ToYmd(), ymd, got, n), ymd)
